@@ -48,9 +48,14 @@ def gen_cases(tier, seed):
             # a paced link: virtual time passes between the sender's calls while the file is sent (less than / exactly / more than a check period)
             for pace in (IVL // 7, IVL, IVL + 3):
                 cases.append({"t": "send", "size": size if size else 17, "when": when, "pace": pace})
+            # the same sender completed an unacknowledged closure transfer before, when the user's provider still handed out another interval
+            for prev in (IVL // 4, IVL * 6):
+                cases.append({"t": "send", "size": size, "when": when, "prev_ivl_ms": prev})
             cases.append({"t": "send", "size": size, "when": when, "other_entity": True})
     # the same receiver scenarios while another entity of the process has configured its own fault handler table
     cases += [dict(c, other_entity=True) for c in cases if c["t"] == "recv" and c["n"] <= 2 and c["L"] <= 2]
+    # the PDUs before the EOF are spread over (virtual) time: 0.4 / 1 / 2.5 check intervals between them
+    cases += [dict(c, spread_ms=sp) for c in cases if c["t"] == "recv" and not c.get("other_entity") and (c["n"] + c["L"]) <= 4 for sp in (IVL * 2 // 5, IVL, IVL * 5 // 2)]
     # the checksum type announced in the Metadata PDU differs from the default the receiver has configured for this sender
     cases += [dict(c, mib_cks="crc32c" if c["cks"] == "crc32" else "crc32") for c in cases if c["t"] == "recv" and not c.get("other_entity") and c["n"] <= 2]
     return cases
@@ -77,9 +82,14 @@ def run_recv(case):
 
         p = Probe(w, D)
         p.call(md)
+        spread = case.get("spread_ms", 0)
         for i in range(n):
             if i not in S:
+                vclock.advance(spread)  # (the PDUs before the EOF may be spread over time: expiries are counted from the EOF)
                 p.call(fd(i))
+        vclock.advance(spread)
+        if spread:
+            obs["recv_cases_with_pdus_spread_over_time"] = 1
         p.viol.clear()
         outstanding = set(S)
         done = {"state": None}  # None | 'success' | 'fault'
@@ -247,6 +257,18 @@ def run_send(case):
     cfg = {"mode": "unack", "closure": True, "size": case["size"], "seg": 4, "check_ivl_ms": IVL, "fs": "mem"}
     obs = {"send_cases": 1}
     with World(cfg) as w:
+        if case.get("prev_ivl_ms"):
+            w.src_ctp.ms = case["prev_ivl_ms"]
+            if not prep.src_to(w, "WAITING_FOR_FINISHED"):
+                return [{"clause": "harness-could-not-prepare-step", "step": w.S.h.step.name}], obs, None
+            prep.feed(w.S, pdugen.raw("FIN", prep.tx_conf(w), {}))
+            w.S.outbox.clear()
+            if w.S.h.state.name != "IDLE":
+                return [{"clause": "harness-could-not-complete-first-transfer", "step": w.S.h.step.name}], obs, None
+            w.src_ctp.ms = IVL
+            w.cfg["seq_start"] = w.cfg["seq_start"] + 1
+            vclock.advance(IVL * 10)
+            obs["send_cases_after_transfer_with_other_check_interval"] = 1
         if case.get("pace"):
             w.put()
             for _ in range(case["size"] + 10):
@@ -306,4 +328,4 @@ def exhaustive(tier):
     return True
 
 
-REQUIRED = {"recv_cases": 500, "recv_success": 50, "recv_fault": 50, "send_cases": 6, "race_cases": 100, "cases_next_to_other_entity_with_own_fault_table": 50, "sender_check_limit_faults": 2, "send_cases_with_paced_link": 6, "recv_cases_metadata_checksum_type_differs_from_mib": 50, "expiries": 500}
+REQUIRED = {"recv_cases": 500, "recv_success": 50, "recv_fault": 50, "send_cases": 6, "race_cases": 100, "cases_next_to_other_entity_with_own_fault_table": 50, "sender_check_limit_faults": 2, "send_cases_with_paced_link": 6, "recv_cases_with_pdus_spread_over_time": 50, "send_cases_after_transfer_with_other_check_interval": 4, "recv_cases_metadata_checksum_type_differs_from_mib": 50, "expiries": 500}
